@@ -119,6 +119,10 @@ func (es *explorerState) buildScenario(sc *scenario, twin map[int]map[string]boo
 		Check: func(s *sched.Sched, x *sched.Exec) (string, []sched.Finding) {
 			inst.finish()
 			key, fs, cn := judge(inst, twin)
+			if len(sc.Frames) > 0 {
+				ffs, _ := judgeFrames(inst)
+				fs = append(fs, ffs...)
+			}
 			for k, v := range cn {
 				counts[k] += v
 			}
@@ -264,7 +268,7 @@ func (es *explorerState) reference(g *group, twinSets map[string]map[int]map[str
 	for j := range g.Twin.Subs {
 		judged := false
 		for _, v := range g.Variants {
-			if !v.Subs[j].Cancel {
+			if !v.Subs[j].ends() {
 				judged = true
 			}
 		}
@@ -472,6 +476,9 @@ func TestCheck(t *testing.T) {
 		if only == "" || only == "pairs" {
 			es.runPairs()
 		}
+		if only == "" || only == "frames" {
+			es.runFrames()
+		}
 		for _, u := range plan(groups, run.NShards(), run.Thorough())[run.Shard()] {
 			g := u.g
 			if only != "" && !strings.Contains(g.Name, only) {
@@ -513,7 +520,7 @@ func replay(t *testing.T, run *vk.Run, es *explorerState, groups []*group, twinS
 		es.b = bounds{in.Bounds[0], in.Bounds[1], in.Bounds[2]}
 	}
 	es.replaying = true
-	for _, sc := range pairScenarios() {
+	for _, sc := range append(pairScenarios(), frameScenarios()...) {
 		if sc.Name == in.Scenario {
 			groups = append(groups, &group{Name: sc.Name, Twin: sc})
 		}
